@@ -68,7 +68,7 @@ func cliCases(r *hx.Rand, thorough bool) []*Case {
 	in := input0
 
 	// one-byte separators through -v / -F and through the program text
-	seps := []int{0, 10, 128, 255}
+	seps := []int{0, 255}
 	if thorough {
 		seps = []int{0, 9, 10, 32, 92, 127, 128, 160, 195, 254, 255}
 	}
@@ -80,8 +80,11 @@ func cliCases(r *hx.Rand, thorough bool) []*Case {
 	}
 	// source errors: -f file and inline
 	for i, src := range brokenSources {
+		if !thorough && i > 3 && i%2 == 1 {
+			continue
+		}
 		add(cliFile("cli-syntax-error-file", in, "prog.awk", src, "-f", "prog.awk"))
-		if !strings.Contains(src, "\x00") && (thorough || i%4 == 1) {
+		if !strings.Contains(src, "\x00") && (thorough || i%8 == 0) {
 			add(cli("cli-syntax-error-arg", in, src))
 		}
 		if thorough && i%4 == 0 {
@@ -90,7 +93,7 @@ func cliCases(r *hx.Rand, thorough bool) []*Case {
 		}
 	}
 	// random truncations / newline insertions of generated programs: more error positions
-	nBroken := 40
+	nBroken := 12
 	if thorough {
 		nBroken = 1500
 	}
@@ -112,6 +115,7 @@ func cliCases(r *hx.Rand, thorough bool) []*Case {
 		add(cliFile("cli-broken-generated", in, "p.awk", src, "-f", "p.awk"))
 	}
 	// flags
+	flagN := 0
 	prog := `{ print $1, NF } END { print NR }`
 	for _, a := range [][]string{
 		{}, {"-h"}, {"--help"}, {"-version"}, {"--version"}, {"-Z"}, {"--"}, {"-f"}, {"-v"}, {"-F"}, {"-i"}, {"-o"}, {"-N"}, {"-E"},
@@ -130,10 +134,14 @@ func cliCases(r *hx.Rand, thorough bool) []*Case {
 		{`function f(n) { return f(n + 1) } BEGIN { f(0) }`}, {`BEGIN { $(1e7) = 1 }`}, {`BEGIN { x = "("; print "a" ~ x }`},
 		{"-v", "x=1", "-v", "x=2", "-F:", "-f", "/dev/null", "--", "/dev/null"},
 	} {
+		flagN++
+		if !thorough && flagN%2 == 0 {
+			continue
+		}
 		add(cli("cli-flags", in, a...))
 	}
 	// debug dumps (-d syntax tree, -da disassembly, -dt types) of generated programs
-	nDump := 30
+	nDump := 12
 	if thorough {
 		nDump = 1000
 	}
@@ -146,12 +154,12 @@ func cliCases(r *hx.Rand, thorough bool) []*Case {
 		add(cli("cli-dump"+flag, "", flag, p.Render(awkgen.Opts{})))
 	}
 	for i, src := range miscPrograms {
-		if thorough || i%3 == 0 {
+		if thorough || i%9 == 0 {
 			add(cli("cli-dump-da", "", "-da", src))
 		}
 	}
 	// real I/O (child processes, files in the scratch directory) only happens here, in a child process
-	nIO := 25
+	nIO := 8
 	if thorough {
 		nIO = 600
 	}
@@ -160,7 +168,7 @@ func cliCases(r *hx.Rand, thorough bool) []*Case {
 		add(cli("cli-gen-io", in, p.Render(awkgen.Opts{})))
 	}
 	for i, src := range miscPrograms {
-		if strings.Contains(src, "kill") || strings.Contains(src, "1000000") || (!thorough && i%3 != 1) {
+		if strings.Contains(src, "kill") || strings.Contains(src, "1000000") || (!thorough && i%9 != 1) {
 			continue
 		}
 		add(cli("cli-misc", in, src))
